@@ -22,7 +22,13 @@ from spv import obs  # noqa: E402
 from spv.concrete import Client  # noqa: E402
 from spv.engine import explore, merge_stats  # noqa: E402
 
-REPO_PKG = "/repo/space_packet_parser"
+# The library is imported from /repo's current working tree.  VERIF_REPO (a scratch worktree of /repo) exists only so that seeded
+# changes can be evaluated without touching /repo while other runs are using it; the registered commands never set it.
+REPO = os.environ.get("VERIF_REPO", "/repo")
+if REPO != "/repo":
+    sys.path.insert(0, REPO)
+    os.environ["PYTHONPATH"] = REPO + (":" + os.environ["PYTHONPATH"] if os.environ.get("PYTHONPATH") else "")
+REPO_PKG = REPO + "/space_packet_parser"
 _worker_client = None
 _covered = set()
 
